@@ -145,7 +145,64 @@ fn files(tier: &str) -> Vec<FileSpec> {
         let tests: Vec<TestSpec> = (0..20).map(|k| { let mut t = pool[k % pool.len()].clone(); if k >= pool.len() { t.expected = (t.expected + k) % 5; } t }).collect();
         out.push(FileSpec { tests, h, d, suffix, crlf });
     }
+    // tests that share their name: adjacent pairs and triples, separated by another test, and next to a test that is run
+    // once per language (its corrected copies are collapsed into one entry when the file is rewritten)
+    let dup = |input: &'static str, attrs: Vec<&'static str>, expected: usize| TestSpec { name: "same name", attrs, input, expected };
+    for &(h, d, suffix, crlf) in &shapes {
+        let groups: Vec<Vec<TestSpec>> = vec![
+            vec![dup("a b", vec![], 1), dup("abc", vec![], 1)],
+            vec![dup("a b", vec![], 0), dup("abc", vec![], 1), dup("a\nb c", vec![], 1)],
+            vec![dup("a b", vec![], 1), pool[0].clone(), dup("abc", vec![], 1)],
+            vec![dup("a b", vec![":language(x)", ":language(y)"], 1), dup("abc", vec![], 1), dup("(a b) c", vec![":language(x)"], 1)],
+            vec![pool[0].clone(), dup("a b", vec![":skip"], 1), dup("abc", vec![], 1), pool[3].clone()],
+        ];
+        for tests in groups { out.push(FileSpec { tests, h, d, suffix, crlf }); }
+    }
     out.into_iter().filter(well_formed).collect()
+}
+
+fn spec_json(f: &FileSpec) -> Value {
+    json!({"h": f.h, "d": f.d, "suffix": f.suffix, "crlf": f.crlf, "tests": f.tests.iter().map(|t| json!({"name": t.name, "attrs": t.attrs, "input": t.input, "expected": t.expected})).collect::<Vec<_>>()})
+}
+
+fn spec_from_json(v: &Value) -> Option<FileSpec> {
+    fn leak(s: &str) -> &'static str { Box::leak(s.to_string().into_boxed_str()) }
+    let tests = v["tests"].as_array()?.iter().map(|t| Some(TestSpec { name: leak(t["name"].as_str()?), attrs: t["attrs"].as_array()?.iter().filter_map(|a| a.as_str()).map(leak).collect(), input: leak(t["input"].as_str()?), expected: t["expected"].as_u64()? as usize })).collect::<Option<Vec<_>>>()?;
+    Some(FileSpec { tests, h: v["h"].as_u64()? as usize, d: v["d"].as_u64()? as usize, suffix: leak(v["suffix"].as_str()?), crlf: v["crlf"].as_bool()? })
+}
+
+/// the per-file oracle on the file contents before and after one, two and three updates
+fn judge(f: &FileSpec, original: &str, after1: &str, after2: &str, after3: &str) -> Vec<(String, String)> {
+    let mut out = vec![];
+    match read_back(after1, f) {
+        Err(e) => {
+            let fp = if !f.suffix.is_empty() && !after1.contains(f.suffix) && after1 != original { "delimiter-suffix-lost-on-update" } else { "updated-file-unreadable" };
+            out.push((fp.to_string(), format!("our reader cannot recover the tests: {}", e)));
+            return out;
+        }
+        Ok(got) => {
+            if got.len() != f.tests.len() { out.push(("test-count-changed".into(), format!("{} tests before, {} after", f.tests.len(), got.len()))); return out; }
+            for (t, g) in f.tests.iter().zip(got.iter()) {
+                if g.name != t.name { out.push(("test-name-changed".into(), format!("{:?} -> {:?}", t.name, g.name))); }
+                if g.attrs != t.attrs.iter().map(|a| a.to_string()).collect::<Vec<_>>() { out.push(("test-attributes-changed".into(), format!("{:?} -> {:?}", t.attrs, g.attrs))); }
+                if g.input != t.input { out.push(("test-input-changed".into(), format!("{:?} -> {:?}", t.input, g.input))); }
+            }
+        }
+    }
+    if after2 != after1 { out.push(("second-update-changes-file".into(), format!("second update produced:\n{}", after2))); }
+    else if after3 != after2 { out.push(("third-update-changes-file".into(), "update is not idempotent".into())); }
+    out
+}
+
+/// one independent run per directory (every corpus file lives in its own directory: a failing `:fail-fast` test stops the
+/// run of its directory, and must not keep other files from being processed)
+fn run_cli_many(list: &Path, so: &Path, mode: &str, n: usize) -> Result<Vec<(bool, usize)>, String> {
+    let cli = crate::lang::work_dir().join("target-cli/release/vf-cli");
+    let o = std::process::Command::new(&cli).arg("run-many").arg(list).arg(so).arg("corpl").arg(mode).output().map_err(|e| format!("spawn vf-cli: {}", e))?;
+    let out = String::from_utf8_lossy(&o.stdout);
+    let v: Vec<(bool, usize)> = out.lines().filter(|l| l.starts_with("VF-RESULT-FOR")).map(|line| (line.contains("ok=true"), line.split("failures=").nth(1).and_then(|s| s.split(' ').next()).and_then(|s| s.parse().ok()).unwrap_or(0))).collect();
+    if v.len() != n { return Err(format!("vf-cli reported {} of {} directories (status {:?}): {}", v.len(), n, o.status.code(), String::from_utf8_lossy(&o.stderr).chars().take(400).collect::<String>())); }
+    Ok(v)
 }
 
 pub fn worker(ctx: &Ctx, res: &mut ShardResult) {
@@ -161,75 +218,45 @@ pub fn worker(ctx: &Ctx, res: &mut ShardResult) {
     for (bi, batch) in mine.chunks(400).enumerate() {
         let dir = root.join(format!("b{}", bi));
         std::fs::create_dir_all(&dir).unwrap();
-        let path = |k: usize| dir.join(format!("f{:04}.txt", k));
+        let path = |k: usize| dir.join(format!("d{:04}", k)).join("f.txt");
         let mut originals = vec![];
-        for (k, f) in batch.iter().enumerate() { let text = render(f, &mut parser); std::fs::write(path(k), &text).unwrap(); originals.push(text); }
-        crate::case!("{}", json!({"batch": bi, "files": batch.len()}));
-        let step = |mode: &str, res: &mut ShardResult| -> Option<(bool, usize)> { match run_cli(&dir, &l.so_path, mode) { Ok(r) => Some(r), Err(e) => { res.violation("update-run-failed", e, json!({"batch": bi, "mode": mode})); None } } };
-        if step("update", res).is_none() { continue; }
-        let after1: Vec<String> = (0..batch.len()).map(|k| std::fs::read_to_string(path(k)).unwrap_or_default()).collect();
-        let Some((_, failures)) = step("check", res) else { continue };
-        if step("update", res).is_none() { continue; }
-        let after2: Vec<String> = (0..batch.len()).map(|k| std::fs::read_to_string(path(k)).unwrap_or_default()).collect();
-        if step("update", res).is_none() { continue; }
-        let after3: Vec<String> = (0..batch.len()).map(|k| std::fs::read_to_string(path(k)).unwrap_or_default()).collect();
-        res.transitions += 4 * batch.len() as u64;
-        let mut expected_failures = 0usize;
-        let mut per_file_expected: Vec<usize> = vec![];
+        let mut list = String::new();
         for (k, f) in batch.iter().enumerate() {
-            let before_this_file = expected_failures;
-            res.states += 1;
-            let case = json!({"file": originals[k], "spec": format!("{:?}", f)});
-            let fail = |res: &mut ShardResult, fp: &str, msg: String| res.violation(fp, format!("{} | file was:\n{}\n| after update:\n{}", msg, originals[k], after1[k]), case.clone());
-            if after1[k] != originals[k] { res.nontrivial += 1; }
-            match read_back(&after1[k], f) {
-                Err(e) => {
-                    let fp = if !f.suffix.is_empty() && !after1[k].contains(f.suffix) && after1[k] != originals[k] { "delimiter-suffix-lost-on-update" } else { "updated-file-unreadable" };
-                    fail(res, fp, format!("our reader cannot recover the tests: {}", e));
-                    continue;
-                }
-                Ok(got) => {
-                    if got.len() != f.tests.len() { fail(res, "test-count-changed", format!("{} tests before, {} after", f.tests.len(), got.len())); continue; }
-                    for (t, g) in f.tests.iter().zip(got.iter()) {
-                        if g.name != t.name { fail(res, "test-name-changed", format!("{:?} -> {:?}", t.name, g.name)); }
-                        if g.attrs != t.attrs.iter().map(|a| a.to_string()).collect::<Vec<_>>() { fail(res, "test-attributes-changed", format!("{:?} -> {:?}", t.attrs, g.attrs)); }
-                        if g.input != t.input { fail(res, "test-input-changed", format!("{:?} -> {:?}", t.input, g.input)); }
-                    }
-                }
-            }
-            if after2[k] != after1[k] { fail(res, "second-update-changes-file", format!("second update produced:\n{}", after2[k])); }
-            else if after3[k] != after2[k] { fail(res, "third-update-changes-file", "update is not idempotent".into()); }
-            for t in &f.tests {
-                let (_, has_err) = sexp_of(&mut parser, t.input);
-                let skip = t.attrs.contains(&":skip");
-                let error_attr = t.attrs.contains(&":error");
-                // after an update only tests that cannot be fixed automatically may still fail
-                // (a test is run, and can fail, once per language it names)
-                let runs = t.attrs.iter().filter(|a| a.starts_with(":language")).count().max(1);
-                // (for :cst tests our 'correct' expectation, an S-expression, is never what the CST renderer prints)
-                let cst = t.attrs.contains(&":cst");
-                if !skip && ((has_err && !error_attr && (t.expected != 0 || cst)) || (error_attr && !has_err)) { expected_failures += runs; }
-            }
-            res.outcome((after1[k].len() % 97) as u64);
-            per_file_expected.push(expected_failures - before_this_file);
+            let text = render(f, &mut parser);
+            std::fs::create_dir_all(path(k).parent().unwrap()).unwrap();
+            std::fs::write(path(k), &text).unwrap();
+            list.push_str(&format!("{}\n", path(k).parent().unwrap().display()));
+            originals.push(text);
         }
-        if failures > expected_failures {
-            // locate the files: check each one on its own
-            let mut located = false;
-            for (k, f) in batch.iter().enumerate() {
-                let one = root.join(format!("one{}", bi));
-                let _ = std::fs::remove_dir_all(&one);
-                std::fs::create_dir_all(&one).unwrap();
-                std::fs::write(one.join("f.txt"), &after3[k]).unwrap();
-                if let Ok((_, n)) = run_cli(&one, &l.so_path, "check") {
-                    if n > per_file_expected[k] {
-                        located = true;
-                        res.violation("updated-tests-still-fail", format!("after update a check run reports {} failing tests, at most {} can have unfixable parse errors | spec {:?} | file after update:\n{}", n, per_file_expected[k], f, after3[k]), json!({"file": originals[k]}));
-                    }
-                }
-                let _ = std::fs::remove_dir_all(&one);
+        let list_file = dir.join("dirs.txt");
+        std::fs::write(&list_file, &list).unwrap();
+        crate::case!("{}", json!({"batch": bi, "files": batch.len()}));
+        let step = |mode: &str, res: &mut ShardResult| -> Option<Vec<(bool, usize)>> { match run_cli_many(&list_file, &l.so_path, mode, batch.len()) { Ok(r) => Some(r), Err(e) => { res.violation("ENGINE-update-run-failed", e, json!({"batch": bi, "mode": mode})); None } } };
+        let read_all = || -> Vec<String> { (0..batch.len()).map(|k| std::fs::read_to_string(path(k)).unwrap_or_default()).collect() };
+        if step("update", res).is_none() { continue; }
+        let after1 = read_all();
+        let Some(checked) = step("check", res) else { continue };
+        if step("update", res).is_none() { continue; }
+        let after2 = read_all();
+        if step("update", res).is_none() { continue; }
+        let after3 = read_all();
+        res.transitions += 4 * batch.len() as u64;
+        for (k, f) in batch.iter().enumerate() {
+            res.states += 1;
+            let case = json!({"file": originals[k], "spec": spec_json(f)});
+            if after1[k] != originals[k] { res.nontrivial += 1; }
+            let verdicts = judge(f, &originals[k], &after1[k], &after2[k], &after3[k]);
+            let unreadable = verdicts.iter().any(|(fp, _)| fp == "updated-file-unreadable" || fp == "delimiter-suffix-lost-on-update" || fp == "test-count-changed");
+            for (fp, msg) in verdicts { res.violation(&fp, format!("{} | file was:\n{}\n| after update:\n{}", msg, originals[k], after1[k]), case.clone()); }
+            res.outcome((after1[k].len() % 97) as u64);
+            if unreadable { continue; }
+            // a failing `:fail-fast` test ends the run of its file before anything is written back: such a file is not updated
+            // at all, and its tests are not "updated tests" in the sense of the property
+            if fail_fast_blocks(f, &mut parser) { res.count("files_not_updated_because_a_fail_fast_test_fails", 1); continue; }
+            let expected_failures = expected_failures_of(f, &mut parser);
+            if checked[k].1 > expected_failures {
+                res.violation("updated-tests-still-fail", format!("after update a check run reports {} failing tests, at most {} can have unfixable parse errors | file was:\n{}\n| after update:\n{}", checked[k].1, expected_failures, originals[k], after1[k]), case.clone());
             }
-            if !located { res.violation("updated-tests-still-fail", format!("after update a check run reports {} failing tests in batch {}, at most {} tests have unfixable parse errors", failures, bi, expected_failures), json!({"batch": bi})); }
         }
         if res.samples.is_empty() { res.sample(json!({"file": originals[0], "after_update": after1[0]})); }
         let _ = std::fs::remove_dir_all(&dir);
@@ -239,4 +266,54 @@ pub fn worker(ctx: &Ctx, res: &mut ShardResult) {
     let _ = std::fs::remove_dir_all(&root);
 }
 
-pub fn replay(case: &Value) -> Vec<String> { vec![format!("rerun ./vf check C20 quick (case {})", case)] }
+fn fail_fast_blocks(f: &FileSpec, parser: &mut Parser) -> bool {
+    f.tests.iter().any(|t| {
+        if !t.attrs.contains(&":fail-fast") || t.attrs.contains(&":skip") { return false; }
+        let (_, has_err) = sexp_of(parser, t.input);
+        let error_attr = t.attrs.contains(&":error");
+        if error_attr { return !has_err; }
+        has_err || t.expected == 1 || t.expected == 2 || t.attrs.contains(&":cst")
+    })
+}
+
+/// how many tests of the file may still fail after an update: only those that cannot be fixed automatically
+fn expected_failures_of(f: &FileSpec, parser: &mut Parser) -> usize {
+    let mut n = 0usize;
+    for t in &f.tests {
+        let (_, has_err) = sexp_of(parser, t.input);
+        let skip = t.attrs.contains(&":skip");
+        let error_attr = t.attrs.contains(&":error");
+        // (a test is run, and can fail, once per language it names)
+        let runs = t.attrs.iter().filter(|a| a.starts_with(":language")).count().max(1);
+        // (for :cst tests our 'correct' expectation, an S-expression, is never what the CST renderer prints)
+        let cst = t.attrs.contains(&":cst");
+        if !skip && ((has_err && !error_attr && (t.expected != 0 || cst)) || (error_attr && !has_err)) { n += runs; }
+    }
+    n
+}
+
+/// Re-run one recorded file: write it into an empty directory, update it three times through the real CLI code, judge it.
+pub fn replay(case: &Value) -> Vec<String> {
+    let case = if case.get("kind").and_then(|k| k.as_str()) == Some("crash") { &case["case"] } else { case };
+    let (Some(f), Some(original)) = (spec_from_json(&case["spec"]), case["file"].as_str()) else { return vec![format!("not a single-file case: {}", case.to_string().chars().take(200).collect::<String>())] };
+    let z = crate::zoo::corpl();
+    let l = crate::lang::build(&z.spec, tree_sitter_generate::OptLevel::default()).expect("corpl builds");
+    let dir = crate::lang::work_dir().join("c20").join(format!("replay-{}", std::process::id()));
+    let _ = std::fs::remove_dir_all(&dir);
+    std::fs::create_dir_all(&dir).unwrap();
+    let path = dir.join("f.txt");
+    std::fs::write(&path, original).unwrap();
+    let mut afters = vec![];
+    for _ in 0..3 {
+        if let Err(e) = run_cli(&dir, &l.so_path, "update") { let _ = std::fs::remove_dir_all(&dir); return vec![format!("update-run-failed: {}", e)]; }
+        afters.push(std::fs::read_to_string(&path).unwrap_or_default());
+    }
+    let checked = run_cli(&dir, &l.so_path, "check");
+    let _ = std::fs::remove_dir_all(&dir);
+    println!("file before:\n{}\nfile after one update:\n{}", original, afters[0]);
+    let mut msgs: Vec<String> = judge(&f, original, &afters[0], &afters[1], &afters[2]).into_iter().map(|(fp, m)| format!("{}: {}", fp, m)).collect();
+    let mut parser = Parser::new();
+    parser.set_language(&l.language).unwrap();
+    if let Ok((_, n)) = checked { let e = expected_failures_of(&f, &mut parser); if n > e && msgs.is_empty() && !fail_fast_blocks(&f, &mut parser) { msgs.push(format!("updated-tests-still-fail: {} failing tests after update, at most {} unfixable", n, e)); } }
+    msgs
+}
